@@ -2337,3 +2337,66 @@ Theorem C11_example_operand_order_matters :
   find_rel (fun n : N => n) (fun a b => N.leb b a) 3%N [(5%N, tt); (2%N, tt)] = Some 0.
 Proof. exact (conj asym_script_exists (conj find_rel_leb_stored_left find_rel_leb_stored_right)). Qed.
 Print Assumptions C11_example_operand_order_matters.
+
+(* the entry chain entry(k).or_insert(v) under ANY operand-determined == (Proofs/PureEqEntry.v): the two scans
+   (entry(), then VacantEntry::insert) compute the same find_rel, because nothing changes in between *)
+Require Import Proofs.PureEqEntry.
+
+Theorem C11_or_insert_any_relation :
+  forall (K V Q T : Type) (E : env K V Q T) (debug : bool) (ck : K -> N) (cq : Q -> N) (R : N -> N -> bool)
+         (HR : Related E ck cq R) (k : K) (v : V) (w : world K V T),
+    WF (self w) ->
+    wp (e <- entry_of E k ;; or_insert E debug e v)
+       (fun (i : nat) (w' : world K V T) =>
+          WF (self w') /\ cap (self w') = cap (self w) /\
+          match find_rel ck R (ck k) (Spec.elems (self w)) with
+          | Some j => i = j /\ self w' = self w /\
+                      logged w w' (ev_drops (idK E k) ++ ev_drops (idV E v))
+          | None => i = len (self w) /\ len (self w) < cap (self w) /\
+                    Spec.elems (self w') = Spec.elems (self w) ++ [(k, v)] /\ log w' = log w
+          end)
+       (fun w' : world K V T =>
+          self w' = self w /\ logged w w' (ev_drops (idV E v ++ idK E k)) /\
+          find_rel ck R (ck k) (Spec.elems (self w)) = None /\ len (self w) = cap (self w)) w.
+Proof. exact (fun K V Q T E debug ck cq R HR => or_insert_rel E debug ck cq R HR). Qed.
+Print Assumptions C11_or_insert_any_relation.
+
+(* VacantEntry::insert alone, WITHOUT the assumption that the key is absent (its own scan decides) *)
+Theorem C11_vac_insert_any_relation :
+  forall (K V Q T : Type) (E : env K V Q T) (debug : bool) (ck : K -> N) (cq : Q -> N) (R : N -> N -> bool)
+         (HR : Related E ck cq R) (k : K) (v : V) (w : world K V T),
+    WF (self w) ->
+    wp (vac_insert E debug k v)
+       (fun (i : nat) (w' : world K V T) =>
+          WF (self w') /\ cap (self w') = cap (self w) /\
+          match find_rel ck R (ck k) (Spec.elems (self w)) with
+          | None => log w' = log w /\ Spec.elems (self w') = Spec.elems (self w) ++ [(k, v)] /\
+                    i = len (self w) /\ len (self w) < cap (self w)
+          | Some j => i = j /\
+                      exists k0 v0, nth_error (Spec.elems (self w)) j = Some (k0, v0) /\
+                                    R (ck k0) (ck k) = true /\
+                                    Spec.elems (self w') = upd (Spec.elems (self w)) j (k0, v) /\
+                                    logged w w' (ev_drops (idK E k ++ idV E v0))
+          end)
+       (fun w' : world K V T =>
+          self w' = self w /\ logged w w' (ev_drops (idV E v ++ idK E k)) /\
+          find_rel ck R (ck k) (Spec.elems (self w)) = None /\ len (self w) = cap (self w)) w.
+Proof. exact (fun K V Q T E debug ck cq R HR => vac_insert_rel E debug ck cq R HR). Qed.
+Print Assumptions C11_vac_insert_any_relation.
+
+(* what a lookup sees afterwards: the returned slot in the Occupied case; in the appended case only if the new key is
+   related to itself (R need not be reflexive) *)
+Theorem C11_or_insert_then_get_any_relation :
+  forall (K V Q T : Type) (E : env K V Q T) (debug : bool) (ck : K -> N) (cq : Q -> N) (R : N -> N -> bool)
+         (HR : Related E ck cq R) (k : K) (v : V) (q : Q) (w : world K V T),
+    ck k = cq q -> WF (self w) ->
+    wp (i <- (e <- entry_of E k ;; or_insert E debug e v) ;; g <- get E q ;; ret (i, g))
+       (fun (r : nat * option nat) (_ : world K V T) =>
+          match find_rel ck R (ck k) (Spec.elems (self w)) with
+          | Some j => fst r = j /\ snd r = Some j
+          | None => fst r = len (self w) /\
+                    snd r = if R (ck k) (cq q) then Some (len (self w)) else None
+          end)
+       (fun _ : world K V T => find_rel ck R (ck k) (Spec.elems (self w)) = None /\ len (self w) = cap (self w)) w.
+Proof. exact (fun K V Q T E debug ck cq R HR => or_insert_get_agree_rel E debug ck cq R HR). Qed.
+Print Assumptions C11_or_insert_then_get_any_relation.
